@@ -177,6 +177,7 @@ func (u *universe) populate(w *hWorld) {
 //   - an SFT collection (HiTok, creator U[2]) whose counter has passed 256: U[2] keeps nonces 1, 2, 255, 256, 257 (the others are
 //     burnt again), so that nonces whose big-endian form ends in a zero byte, and their small neighbours, are live,
 //   - a destination (U[3]) that already holds part of HiTok#256 and of NFTs[1]#1.
+//
 // All through real calls of the library, so the resulting world is reachable.
 func (u *universe) populateRich(w *hWorld) {
 	u.rich = true
@@ -319,7 +320,7 @@ func richTour(u *universe, w *hWorld) []func() *worldOp {
 		tx(u.U[0], u.K[0], "ClaimDeveloperRewards"),
 		tx(u.U[1], u.K[0], "ClaimDeveloperRewards"),
 		tx(u.U[1], u.K[0], "ChangeOwnerAddress", u.U[3]), // new owner on another shard
-		tx(u.U[3], u.K[0], "ClaimDeveloperRewards"),       // origin side only; the message is delivered
+		tx(u.U[3], u.K[0], "ClaimDeveloperRewards"),      // origin side only; the message is delivered
 		tx(u.DNS, u.U[1], "SetUserName", []byte("carol.elrond")),
 		tx(u.DNS, u.U[1], "SetUserName", []byte("carol2.elrond")),
 		tx(u.DNS, u.U[3], "SetUserName", []byte("dave.elrond")),
@@ -398,8 +399,11 @@ func richTour(u *universe, w *hWorld) []func() *worldOp {
 			return op
 		},
 		tx(u.U[0], fresh, "ESDTTransfer", u.Fung[2], be(1)),
-		tx(u.U[0], u.U[1], "ESDTTransfer", u.Fung[2], be(1)), // still frozen: refused
+		tx(u.U[0], u.U[1], "ESDTTransfer", u.Fung[2], be(1)),                    // still frozen: refused
 		tweak(arrival(u.U[2], u.U[1], "ESDTTransfer", u.Fung[2], be(3)), raeCB), // a refund onto the frozen zero-balance entry: accepted
+		arrival(u.U[2], userAddr(0x32), "ESDTTransfer", u.Fung[2], be(1)),        // right after it: an arrival at an account without any entry
+		tweak(arrival(u.U[2], u.U[1], "ESDTTransfer", u.Fung[2], be(2)), raeCB),
+		arrival(u.U[2], userAddr(0x33), "MultiESDTNFTTransfer", be(1), u.Fung[2], []byte{0}, be(1)),
 		tx(u.U[0], fresh, "ESDTTransfer", u.Fung[2], be(1)),
 		sysAs(u.SC, u.U[1], u.U[1], "ESDTUnFreeze", u.Fung[0]),
 	)
